@@ -223,24 +223,43 @@ def key_rec(s):
     return dict(t=s[0], n=s[1:])
 
 def run_case(binary, case, workdir, name, timeout=300):
-    """run one case in a fresh sandbox; returns (trace lines for TLC, raw driver events, error or None)"""
+    """run one case in a fresh sandbox; returns (trace lines for TLC, raw driver events, error or None).
+    With case["procs"] every frontend of the history lives in a process of its own (the history is continued by a new
+    driver process at every FRONTEND step: new process, database re-opened, signatures recomputed)."""
     sb = os.path.join(workdir, name); subprocess.run(["rm", "-rf", sb]); os.makedirs(sb)
     abs_prefix = os.path.realpath(sb)
     sp = os.path.join(workdir, name + ".script")
-    with open(sp, "w") as f: f.write("\n".join(script_lines(case, abs_prefix)) + "\n")
-    try:
-        r = subprocess.run([binary, sp, sb], capture_output=True, timeout=timeout)
-    except subprocess.TimeoutExpired:
-        return None, [], "driver timeout"
-    evs = []
-    for ln in r.stdout.decode("latin-1").split("\n"):
-        if ln.strip():
-            try: evs.append(json.loads(ln))
-            except Exception: return None, evs, "unparsable driver line: " + ln[:200]
-    err = None
-    if r.returncode != 0 or not evs or evs[-1].get("e") != "End":
-        err = "driver exit %d, last event %s" % (r.returncode, evs[-1] if evs else None)
+    lines = script_lines(case, abs_prefix)
+    chunks = [lines]
+    if case.get("procs"):
+        track = next(l for l in lines if l.startswith("TRACK"))
+        chunks = [[]]
+        for l in lines:
+            if l.startswith("FRONTEND") and any(x.startswith("FRONTEND") for x in chunks[-1]): chunks.append([track])
+            chunks[-1].append(l)
+    evs = []; err = None
+    for ci, ch in enumerate(chunks):
+        with open(sp, "w") as f: f.write("\n".join(ch) + "\n")
+        try:
+            r = subprocess.run([binary, sp, sb], capture_output=True, timeout=timeout)
+        except subprocess.TimeoutExpired:
+            return None, evs, "driver timeout"
+        part = []
+        for ln in r.stdout.decode("latin-1").split("\n"):
+            if ln.strip():
+                try: part.append(json.loads(ln))
+                except Exception: return None, evs, "unparsable driver line: " + ln[:200]
+        if r.returncode != 0 or not part or part[-1].get("e") != "End":
+            err = "driver exit %d, last event %s" % (r.returncode, part[-1] if part else None); evs += part; break
+        if ci > 0:
+            # a continuation process re-reads the tracked paths: nothing may have changed while no process was running
+            fs0 = next((e for e in part if e["e"] == "FS0"), None)
+            if fs0 is None: err = "continuation process without FS0"
+            part = [e for e in part if e["e"] != "FS0" and not (e["e"] == "Step" and e.get("op") == "TRACK")]
+        if ci < len(chunks) - 1: part = [e for e in part if e["e"] != "End"]
+        evs += part
     subprocess.run(["rm", "-rf", sb, sp])
+    if err: return None, evs, err
     return weave(case, evs), evs, err
 
 def weave(case, evs):
